@@ -438,6 +438,27 @@ impl ProofVerifier {
         )?;
 
         for ne_proof in primary_proof.ne_proofs.iter() {
+            // The predicate must be proven about the attribute signed in this very
+            // credential: its response has to be the equality proof's response for the
+            // same attribute (the honest prover copies that value).
+            let m_hat = primary_proof
+                .eq_proof
+                .m
+                .get(&ne_proof.predicate.attr_name)
+                .ok_or_else(|| {
+                    err_msg!(
+                        ProofRejected,
+                        "Value by key '{}' not found in eq_proof.m",
+                        ne_proof.predicate.attr_name
+                    )
+                })?;
+            if *m_hat != ne_proof.mj {
+                return Err(err_msg!(
+                    ProofRejected,
+                    "Predicate proof for '{}' is not linked to the credential attribute",
+                    ne_proof.predicate.attr_name
+                ));
+            }
             t_hat.append(&mut ProofVerifier::_verify_ne_predicate(
                 p_pub_key, ne_proof, c_hash,
             )?)
